@@ -294,7 +294,7 @@ class NearestTargets(FragmentContract):
     are untouched."""
     qualname = 'tangermeme.tools.tomtom._tomtom'
     props = ('C13', 'C14')
-    stmt_block = ('idxs = numpy.argsort(_results[pid, :n_in_targets, 0])[:n_nearest]', 3)
+    stmt_block = ('idxs = numpy.argsort(_results[pid, :n_in_targets, 0])[:n_nearest]', ('until', 'results[i, :, 5] = idxs'))
     key = 'tangermeme.tools.tomtom._tomtom#nearest'
 
     def scopes(self, cfg):
